@@ -119,10 +119,26 @@ fn build_layout(dir: &Path, tar: bool, rng: &mut Rng) -> Result<(std::path::Path
 	let stale_token = format!("CANARY-{:016x}{:016x}", rng.next_u64(), rng.next_u64());
 	canaries.push(stale_token.clone());
 	let canaries_tail = stale_token.into_bytes();
+	// a token that only exists in records of the tar root that are not member files (pax global header of a
+	// `git archive` tarball, a GNU dump-directory record)
+	let record_token = format!("CANARY-{:016x}{:016x}", rng.next_u64(), rng.next_u64());
+	canaries.push(record_token.clone());
 	let layout = Layout { inside, canaries, abs_canary: dir.join("abs_canary.txt").display().to_string(), abs_canary_gz_only: dir.join("abs_canary2.txt").display().to_string() };
 	if tar {
 		// an archive with the same inside files (hand-written ustar)
 		let mut out = vec![];
+		for (name, kind, text) in [("pax_global_header", b'g', format!("52 comment={record_token}\n")), ("sub/", b'D', format!("Yb.txt\0N{record_token}\0\0"))] {
+			let mut h = tar_header(name, text.len());
+			h[156] = kind;
+			for b in h[148..156].iter_mut() {
+				*b = b' ';
+			}
+			let sum: u32 = h.iter().map(|b| *b as u32).sum();
+			h[148..156].copy_from_slice(format!("{:06o}\0 ", sum).as_bytes());
+			out.extend_from_slice(&h);
+			out.extend_from_slice(text.as_bytes());
+			out.extend(std::iter::repeat(0u8).take((512 - text.len() % 512) % 512));
+		}
 		for (name, data) in &disk {
 			out.extend_from_slice(&tar_header(name, data.len()));
 			out.extend_from_slice(data);
@@ -169,7 +185,7 @@ fn tar_header(name: &str, size: usize) -> [u8; 512] {
 }
 
 fn alphabet(l: &Layout) -> Vec<String> {
-	let mut a: Vec<String> = ["a.txt", "sub", "b.txt", "index.html", ".", "..", "", "%2e%2e", "%2E%2e", "..%2f", "%2f", "..;", "secret.txt", "secret2.txt", "secret3.txt", "sibling", "s.txt", "root", "outer", "c.css", "d.js", "..%5c", "%2e%2e%2f", "....", ".%2e", "current", "app.js", "releases", "v2", "..%2fsecret.txt", "..%2F..%2fsecret.txt", "%2e%2e%2fsecret.txt", "..%2findex.html", "sub%2f..%2f..%2fsecret.txt", "..%5csecret.txt", "a.txt%00", "%2e%2e%2fsibling%2fs.txt", "stale-secret.txt"]
+	let mut a: Vec<String> = ["a.txt", "sub", "b.txt", "index.html", ".", "..", "", "%2e%2e", "%2E%2e", "..%2f", "%2f", "..;", "secret.txt", "secret2.txt", "secret3.txt", "sibling", "s.txt", "root", "outer", "c.css", "d.js", "..%5c", "%2e%2e%2f", "....", ".%2e", "current", "app.js", "releases", "v2", "..%2fsecret.txt", "..%2F..%2fsecret.txt", "%2e%2e%2fsecret.txt", "..%2findex.html", "sub%2f..%2f..%2fsecret.txt", "..%5csecret.txt", "a.txt%00", "%2e%2e%2fsibling%2fs.txt", "stale-secret.txt", "pax_global_header"]
 		.iter()
 		.map(|s| s.to_string())
 		.collect();
@@ -222,11 +238,19 @@ fn run_case(cx: &CaseCtx, rep: &mut Report) {
 		rep.inconclusive(&format!("fixture write failed: {e:#}"));
 		return;
 	}
+	// how the root is spelled (see below); spelling 4 uses the documented trailing form `path[/prefix]`
+	let spelling = if tar { 0 } else { [0u64, 4, 1, 2, 3][((cx.case / 4) % 5) as usize] };
+	let prefixed = prefixed || spelling == 4;
 	let prefix = if prefixed { "/assets" } else { "" };
 	// how the root is spelled on the command line: canonical absolute path; relative to the working directory with
 	// a parent segment in it; or through a symlink that lies deeper than its target
-	let spelling = if tar { 0 } else { (cx.case / 4) % 4 };
 	let root_arg = match spelling {
+		4 => {
+			// a bracket earlier in the path (a folder named `[v1]`), the mount point behind the path
+			#[cfg(unix)]
+			let _ = std::os::unix::fs::symlink(dir.join("outer"), dir.join("[v1]"));
+			dir.join("[v1]").join("root").display().to_string()
+		}
 		1 => "outer/sibling/../root".to_string(),
 		2 => {
 			let deep = dir.join("deep").join("a").join("b");
@@ -239,7 +263,8 @@ fn run_case(cx: &CaseCtx, rep: &mut Report) {
 		_ => root.display().to_string(),
 	};
 	rep.count(&format!("servers_root_spelling_{spelling}"), 1);
-	let static_arg = if prefixed { format!("[/assets]{root_arg}") } else { root_arg };
+	let static_arg = if spelling == 4 { format!("{root_arg}[/assets]") } else if prefixed { format!("[/assets]{root_arg}") } else { root_arg };
+	let static_arg_copy = static_arg.clone();
 	let mut args = vec![tiles.display().to_string(), "-s".to_string(), static_arg];
 	// a second static mount under its own prefix: what it serves belongs to that prefix only
 	let admin_token = format!("ADMIN-ONLY-{:016x}{:016x}", rng.next_u64(), rng.next_u64());
@@ -331,6 +356,19 @@ fn run_case(cx: &CaseCtx, rep: &mut Report) {
 		}
 	}
 
+	if spelling == 4 {
+		// what a split at the wrong bracket would mount: the part in front of the first `[` as root, the rest as prefix
+		if let Some((front, rest)) = static_arg_copy.split_once('[') {
+			let mount = format!("/{}", rest.trim_end_matches(']'));
+			for abs in [format!("{}/outer/secret.txt", dir.display()), layout.abs_canary.clone(), format!("{}/outer/sibling/s.txt", dir.display()), format!("{}/outer/root.bak", dir.display())] {
+				if let Some(rel) = abs.strip_prefix(front) {
+					let segs: Vec<String> = rel.split('/').map(String::from).collect();
+					targets.push((format!("{mount}/{rel}"), segs.clone(), true));
+					targets.push((format!("{}/{rel}", mount.replace('[', "%5B").replace(']', "%5D")), segs, true));
+				}
+			}
+		}
+	}
 	let mut bad = 0;
 	for (target, segs, abs) in targets {
 		if bad > 10 {
